@@ -200,7 +200,7 @@ func cmdCheck(argv []string) int {
 				}
 			}
 			outcome := "not-replayed"
-			if !*noReplay {
+			if !*noReplay && !in.EngineOnly {
 				replayed++
 				outcome = runReplay(vd, file, v.Label)
 				if outcome == "reproduced" {
